@@ -21,12 +21,12 @@ Proof. vm_compute. reflexivity. Qed.
 (* ---- the symbolic-execution step --------------------------------------------------------------------------------- *)
 Ltac step :=
   cbn [exec eval lift seq rbind assign lookup update String.eqb Ascii.eqb Bool.eqb andb
-       binop_vals cmp_vals truthy builtin1_val mixes_bool items Z.eqb].
+       binop_vals binop_scalar cmp_vals cmp_scalar is_arr orb truthy builtin1_val mixes_bool items Z.eqb].
 
 (* the same without [exec]: used where the continuation still contains loops *)
 Ltac step0 :=
   cbn [eval lift seq rbind assign lookup update String.eqb Ascii.eqb Bool.eqb andb
-       binop_vals cmp_vals truthy builtin1_val mixes_bool items Z.eqb].
+       binop_vals binop_scalar cmp_vals cmp_scalar is_arr orb truthy builtin1_val mixes_bool items Z.eqb].
 
 Lemma exec_assign ce fuel t e en :
   exec ce fuel (SAssign t e) en = lift (eval ce en e) (fun v => assign ce t v en).
